@@ -6,6 +6,7 @@ require (
 	github.com/dolthub/dolt/go v0.0.0
 	github.com/dolthub/go-mysql-server v0.20.1-0.20260819200441-c0b22e21d5fc
 	github.com/dolthub/vitess v0.0.0-20260819175407-19559ab533b7
+	github.com/sirupsen/logrus v1.8.3
 )
 
 require (
@@ -102,7 +103,6 @@ require (
 	github.com/prometheus/procfs v0.16.1 // indirect
 	github.com/rivo/uniseg v0.2.0 // indirect
 	github.com/sergi/go-diff v1.1.0 // indirect
-	github.com/sirupsen/logrus v1.8.3 // indirect
 	github.com/sony/gobreaker v0.5.0 // indirect
 	github.com/spiffe/go-spiffe/v2 v2.6.0 // indirect
 	github.com/vbauerster/mpb/v8 v8.0.2 // indirect
